@@ -21,16 +21,18 @@ VARIABLES l,
           cvals,   \* values of the pages seen so far
           pidx,    \* per page: [ci, min, max, nullpage] (column index entries)
           prows,   \* per page: rows
-          ploc     \* per page: [first, off, size]
+          ploc,    \* per page: [first, off, size]
+          bmins,   \* BYTE_ARRAY decimals: per page that holds a value, [raw, key] of the minimum / maximum
+          bmaxs    \*   the current comparison code arrives at (see "Known findings")
 
-vars == <<l, col, cvals, pidx, prows, ploc>>
+vars == <<l, col, cvals, pidx, prows, ploc, bmins, bmaxs>>
 
 Init == l = 1 /\ col = [ord |-> "signed", fw |-> 0, utf8 |-> FALSE, badec |-> FALSE, rep |-> FALSE, dictin |-> FALSE, tci |-> 0] /\ cvals = <<>> /\ pidx = <<>>
-        /\ prows = <<>> /\ ploc = <<>>
+        /\ prows = <<>> /\ ploc = <<>> /\ bmins = <<>> /\ bmaxs = <<>>
 
 New(ev) ==
   /\ col' = [ord |-> ev.ord, fw |-> ev.fw, utf8 |-> ev.utf8, badec |-> ev.badec, rep |-> ev.rep, dictin |-> ev.dictin, tci |-> ev.tci]
-  /\ cvals' = <<>> /\ pidx' = <<>> /\ prows' = <<>> /\ ploc' = <<>>
+  /\ cvals' = <<>> /\ pidx' = <<>> /\ prows' = <<>> /\ ploc' = <<>> /\ bmins' = <<>> /\ bmaxs' = <<>>
 
 (* a reported [min, max, exact flags, null count] against the values vs     *)
 Reported(min, max, minx, maxx, nulls, vs) ==
@@ -39,74 +41,140 @@ Reported(min, max, minx, maxx, nulls, vs) ==
 
 (***************************************************************************)
 (* Known findings (known_findings.txt).                                     *)
-(* DECIMAL stored as BYTE_ARRAY: the writer's comparison of two values of    *)
-(* unequal byte length is wrong (identified by: a BYTE_ARRAY decimal column  *)
-(* and values of different encoded lengths among those covered).            *)
-(* Repeated (list) columns: the column index marks a page as a null page when *)
-(* its number of rows equals its number of null values (identified by: a     *)
-(* repeated column, a page flagged null page that holds values, rows = nulls). *)
+(*                                                                         *)
+(* 1. DECIMAL stored as BYTE_ARRAY.  BuggyGreater transcribes the current    *)
+(* compare_greater_byte_array_decimals (column/writer/mod.rs:1867-1910): for *)
+(* two values of unequal length whose longer one starts with pure sign       *)
+(* extension it compares the tails a[2..] and b[2..] although they are not   *)
+(* aligned.  The writer folds the values of a page one by one (write batch   *)
+(* size 1 in the driver) and the pages of a chunk one by one with this       *)
+(* comparison; a wrong bound is KNOWN only if it is exactly the bound this   *)
+(* fold arrives at (and the boundary order exactly the order these           *)
+(* comparisons yield) -- any other wrong result of the same code is rejected. *)
 (***************************************************************************)
-(* Dictionary input with write_row_group_number_distinct_values: the writer  *)
-(* counts distinct dictionary *keys* (identified by: an Arrow dictionary      *)
-(* column and a reported distinct count).                                    *)
-KFDistinct(ev) == IF col.dictin /\ ev.distinct >= 0 THEN "C07-distinct-count-of-dictionary-keys" ELSE ""
-(* UTF-8 column with column_index_truncate_length: the boundary order is      *)
+Signed8(x) == IF x >= 128 THEN x - 256 ELSE x
+BuggyGreater(a, b) ==
+  IF Len(a) = 0 \/ Len(b) = 0 THEN Len(a) > 0
+  ELSE LET nega == a[1] >= 128
+           negb == b[1] >= 128
+       IN IF nega # negb \/ (Len(a) = Len(b) /\ a[1] # b[1]) THEN Signed8(a[1]) > Signed8(b[1])
+          ELSE LET ext == IF nega THEN 255 ELSE 0
+                   longer == IF Len(a) > Len(b) THEN a ELSE b
+                   lead == IF Len(a) > Len(b) THEN Len(a) - Len(b) ELSE Len(b) - Len(a)
+               IN IF Len(a) # Len(b) /\ (\E i \in 1..lead : longer[i] # ext)
+                  THEN (IF nega THEN ~(Len(a) > Len(b)) ELSE Len(a) > Len(b))
+                  ELSE BytesCmp(Tail(a), Tail(b)) > 0
+
+(* index of the minimum / maximum the sequential fold arrives at; `at(i)` is the stored bytes of entry i *)
+RECURSIVE BugMinFrom(_, _, _, _), BugMaxFrom(_, _, _, _)
+BugMinFrom(at(_), n, i, cur) == IF i > n THEN cur ELSE BugMinFrom(at, n, i + 1, IF BuggyGreater(at(cur), at(i)) THEN i ELSE cur)
+BugMaxFrom(at(_), n, i, cur) == IF i > n THEN cur ELSE BugMaxFrom(at, n, i + 1, IF BuggyGreater(at(i), at(cur)) THEN i ELSE cur)
+
+(* page: the reported pair is what the fold over the page's stored values gives *)
+PageBugMin(ev) == BugMinFrom(LAMBDA i : ev.raw[i], Len(ev.raw), 2, 1)
+PageBugMax(ev) == BugMaxFrom(LAMBDA i : ev.raw[i], Len(ev.raw), 2, 1)
+PageBugPair(ev, min, max) ==
+  LET nn == NonNull(ev.vals) IN
+  /\ ev.raw # <<>> /\ Len(ev.raw) = Len(nn) /\ ~Absent(min) /\ ~Absent(max)
+  /\ KCmp(min, nn[PageBugMin(ev)]) = 0 /\ KCmp(max, nn[PageBugMax(ev)]) = 0
+(* chunk: the fold over the pages' (buggy) minima / maxima *)
+ChunkBugPair(min, max) ==
+  /\ bmins # <<>> /\ ~Absent(min) /\ ~Absent(max)
+  /\ KCmp(min, bmins[BugMinFrom(LAMBDA i : bmins[i].raw, Len(bmins), 2, 1)].key) = 0
+  /\ KCmp(max, bmaxs[BugMaxFrom(LAMBDA i : bmaxs[i].raw, Len(bmaxs), 2, 1)].key) = 0
+(* boundary order as update_column_offset_index derives it with this comparison *)
+BugOrder ==
+  LET n == Len(bmins)
+      asc == \A k \in 1..(n - 1) : ~(BuggyGreater(bmins[k].raw, bmins[k + 1].raw) \/ BuggyGreater(bmaxs[k].raw, bmaxs[k + 1].raw))
+      desc == \A k \in 1..(n - 1) : ~(BuggyGreater(bmins[k + 1].raw, bmins[k].raw) \/ BuggyGreater(bmaxs[k + 1].raw, bmaxs[k].raw))
+  IN IF asc THEN "ASCENDING" ELSE IF desc THEN "DESCENDING" ELSE "UNORDERED"
+BADEC == "C07-byte-array-decimal-unequal-length-order"
+
+(***************************************************************************)
+(* 2. Repeated (list) columns: the column index marks a page as a null page  *)
+(* when its number of rows equals its number of null values (identified by:  *)
+(* a repeated column, a page flagged null page that holds values, rows =     *)
+(* nulls).                                                                   *)
+(* 3. Dictionary input with write_row_group_number_distinct_values: the      *)
+(* writer counts distinct dictionary *keys* (identified by: an Arrow          *)
+(* dictionary column and a reported distinct count).                         *)
+(* 4. UTF-8 column with column_index_truncate_length: the boundary order is   *)
 (* decided on the untruncated bounds, but character-boundary truncation is    *)
 (* not monotone (identified by: a UTF-8 column, a truncation length, a        *)
 (* declared ASCENDING / DESCENDING order).                                    *)
-KFBoundary(ev) ==
-  IF col.badec /\ ev.mixedlen THEN "C07-byte-array-decimal-unequal-length-order"
-  ELSE IF col.utf8 /\ col.tci > 0 /\ ev.order \in {"ASCENDING", "DESCENDING"}
-       THEN "C07-boundary-order-lost-by-utf8-truncation"
-  ELSE ""
-KF(ev) ==
-  IF col.badec /\ ev.mixedlen THEN "C07-byte-array-decimal-unequal-length-order"
-  ELSE IF ev.op = "page" /\ col.rep /\ ev.ci /\ ev.nullpage /\ ev.rows = ev.nulls /\ NonNull(ev.vals) # <<>>
-       THEN "C07-null-page-flag-counts-rows-against-null-values"
-  ELSE ""
+(***************************************************************************)
+KFDistinct(ev) == IF col.dictin /\ ev.distinct >= 0 THEN "C07-distinct-count-of-dictionary-keys" ELSE ""
+KFNullPage(ev) ==
+  IF col.rep /\ ev.ci /\ ev.nullpage /\ ev.rows = ev.nulls /\ NonNull(ev.vals) # <<>>
+  THEN "C07-null-page-flag-counts-rows-against-null-values" ELSE ""
+
+(* the conditions on a page, with the judgement of a [min, max] pair as a parameter *)
+CiCond(ev, P(_, _, _, _)) ==
+  ev.ci => (/\ P(ev.min, ev.max, FALSE, FALSE) /\ CountOk(ev.nulls, NullCount(ev.vals))
+            /\ ev.nullpage => NonNull(ev.vals) = <<>>
+            /\ ~ev.nullpage => (NonNull(ev.vals) # <<>> /\ ~Absent(ev.min) /\ ~Absent(ev.max)))
+HsCond(ev, P(_, _, _, _)) ==
+  ev.hs => (P(ev.hmin, ev.hmax, ev.hminx, ev.hmaxx) /\ CountOk(ev.hnulls, NullCount(ev.vals)))
+CvCond(ev, P(_, _, _, _)) ==
+  ev.cv => (P(ev.cvmin, ev.cvmax, FALSE, FALSE) /\ CountOk(ev.cvnulls, NullCount(ev.vals)) /\ CountOk(ev.cvrows, ev.rows))
+RightP(vs, mn, mx, mnx, mxx) == PairOk(mn, mx, mnx, mxx, vs, col.fw, col.ord, col.utf8)
+(* a page without values has no bounds in either reading *)
+PageBugP(ev, mn, mx) == IF NonNull(ev.vals) = <<>> THEN (Absent(mn) /\ Absent(mx)) ELSE PageBugPair(ev, mn, mx)
+BadecPage(ev) == col.badec /\ ev.mixedlen
 
 Page(ev) ==
-  /\ JudgeKF(ev.ci => (/\ Reported(ev.min, ev.max, FALSE, FALSE, ev.nulls, ev.vals)
-                       /\ ev.nullpage => NonNull(ev.vals) = <<>>
-                       /\ ~ev.nullpage => (NonNull(ev.vals) # <<>> /\ ~Absent(ev.min) /\ ~Absent(ev.max))),
-             l, "column index entry", KF(ev))
-  /\ JudgeKF(ev.hs => Reported(ev.hmin, ev.hmax, ev.hminx, ev.hmaxx, ev.hnulls, ev.vals), l, "page header statistics", KF(ev))
-  /\ JudgeKF(ev.cv => (/\ Reported(ev.cvmin, ev.cvmax, FALSE, FALSE, ev.cvnulls, ev.vals)
-                       /\ CountOk(ev.cvrows, ev.rows)),
-             l, "StatisticsConverter page values", KF(ev))
+  /\ JudgeKF(CiCond(ev, LAMBDA a, b, c, d : RightP(ev.vals, a, b, c, d)), l, "column index entry",
+             IF BadecPage(ev) /\ CiCond(ev, LAMBDA a, b, c, d : PageBugP(ev, a, b)) THEN BADEC ELSE KFNullPage(ev))
+  /\ JudgeKF(HsCond(ev, LAMBDA a, b, c, d : RightP(ev.vals, a, b, c, d)), l, "page header statistics",
+             IF BadecPage(ev) /\ HsCond(ev, LAMBDA a, b, c, d : PageBugP(ev, a, b)) THEN BADEC ELSE "")
+  /\ JudgeKF(CvCond(ev, LAMBDA a, b, c, d : RightP(ev.vals, a, b, c, d)), l, "StatisticsConverter page values",
+             IF BadecPage(ev) /\ CvCond(ev, LAMBDA a, b, c, d : PageBugP(ev, a, b)) THEN BADEC ELSE "")
   /\ cvals' = cvals \o ev.vals
   /\ pidx' = Append(pidx, [ci |-> ev.ci, min |-> ev.min, max |-> ev.max, nullpage |-> ev.nullpage])
   /\ prows' = Append(prows, ev.rows)
   /\ ploc' = Append(ploc, [first |-> ev.first, off |-> ev.off, size |-> ev.size])
+  /\ IF col.badec /\ ev.raw # <<>> /\ Len(ev.raw) = Len(NonNull(ev.vals))
+     THEN /\ bmins' = Append(bmins, [raw |-> ev.raw[PageBugMin(ev)], key |-> NonNull(ev.vals)[PageBugMin(ev)]])
+          /\ bmaxs' = Append(bmaxs, [raw |-> ev.raw[PageBugMax(ev)], key |-> NonNull(ev.vals)[PageBugMax(ev)]])
+     ELSE UNCHANGED <<bmins, bmaxs>>
   /\ UNCHANGED col
 
 AllCi == \A i \in 1..Len(pidx) : pidx[i].ci
 
-ChunkStatsOk(ev) ==
+ChunkStatsCond(ev, P(_, _, _, _)) ==
   /\ ev.nv = Len(cvals) /\ ev.rows = SumTo(prows, Len(prows))
-  /\ ev.has => (/\ Reported(ev.min, ev.max, ev.minx, ev.maxx, ev.nulls, cvals)
+  /\ ev.has => (/\ P(ev.min, ev.max, ev.minx, ev.maxx) /\ CountOk(ev.nulls, NullCount(cvals))
                 /\ CountOk(ev.nan, NaNCount(cvals, col.fw)))
-ChunkConvOk(ev) ==
-  ev.cv => (/\ Reported(ev.cvmin, ev.cvmax, ev.cvminx, ev.cvmaxx, ev.cvnulls, cvals)
+ChunkConvCond(ev, P(_, _, _, _)) ==
+  ev.cv => (/\ P(ev.cvmin, ev.cvmax, ev.cvminx, ev.cvmaxx) /\ CountOk(ev.cvnulls, NullCount(cvals))
             /\ CountOk(ev.cvrows, ev.rows)
             /\ CountOk(ev.cvnan, NaNCount(cvals, col.fw))
             /\ CountOk(ev.cvdistinct, DistinctValues(cvals)))
+ChunkBugP(mn, mx) == IF NonNull(cvals) = <<>> THEN (Absent(mn) /\ Absent(mx)) ELSE ChunkBugPair(mn, mx)
 ChunkBoundaryOk(ev) ==
   (ev.order # "NONE" /\ AllCi) =>
      BoundaryOk(ev.order, [i \in 1..Len(pidx) |-> pidx[i].min], [i \in 1..Len(pidx) |-> pidx[i].max],
                 [i \in 1..Len(pidx) |-> pidx[i].nullpage])
+KFBoundary(ev) ==
+  IF col.badec /\ ev.mixedlen THEN (IF ev.order = BugOrder THEN BADEC ELSE "")
+  ELSE IF col.utf8 /\ col.tci > 0 /\ ev.order \in {"ASCENDING", "DESCENDING"}
+       THEN "C07-boundary-order-lost-by-utf8-truncation"
+  ELSE ""
 ChunkOffsetsOk(ev) ==
   ev.hasoi => OffsetIndexOk([i \in 1..Len(ploc) |-> ploc[i].first], [i \in 1..Len(ploc) |-> ploc[i].off],
                             [i \in 1..Len(ploc) |-> ploc[i].size], prows, ev.rows, ev.start, ev.clen)
+BadecChunk(ev) == col.badec /\ ev.mixedlen
 
 Chunk(ev) ==
-  /\ JudgeKF(ChunkStatsOk(ev), l, "chunk statistics", KF(ev))
+  /\ JudgeKF(ChunkStatsCond(ev, LAMBDA a, b, c, d : RightP(cvals, a, b, c, d)), l, "chunk statistics",
+             IF BadecChunk(ev) /\ ChunkStatsCond(ev, LAMBDA a, b, c, d : ChunkBugP(a, b)) THEN BADEC ELSE "")
   /\ JudgeKF(ev.has => CountOk(ev.distinct, DistinctValues(cvals)), l, <<"distinct_count", ev.distinct>>, KFDistinct(ev))
   /\ JudgeKF(ChunkBoundaryOk(ev), l, <<"boundary order", ev.order>>, KFBoundary(ev))
   /\ Judge(ChunkOffsetsOk(ev), l, "offset index")
   /\ Judge(ev.hasbloom => (Len(ev.bloom) = Len(NonNull(cvals)) /\ BloomOk(ev.bloom)), l, "bloom filter misses a written value")
-  /\ JudgeKF(ChunkConvOk(ev), l, "StatisticsConverter row group values", KF(ev))
-  /\ UNCHANGED <<col, cvals, pidx, prows, ploc>>
+  /\ JudgeKF(ChunkConvCond(ev, LAMBDA a, b, c, d : RightP(cvals, a, b, c, d)), l, "StatisticsConverter row group values",
+             IF BadecChunk(ev) /\ ChunkConvCond(ev, LAMBDA a, b, c, d : ChunkBugP(a, b)) THEN BADEC ELSE "")
+  /\ UNCHANGED <<col, cvals, pidx, prows, ploc, bmins, bmaxs>>
 
 Next ==
   /\ l <= Len(Rec)
